@@ -21,6 +21,9 @@ import ClarabelProofs.Lemmas.CscMisc
 import ClarabelProofs.Lemmas.CscHvcat
 import ClarabelProofs.Lemmas.VecMeanBounds
 import ClarabelModel.Cones.Nonsym
+import ClarabelProofs.Lemmas.DensePack
+import ClarabelProofs.Lemmas.DenseBlas
+import ClarabelProofs.Lemmas.DenseLapack
 
 namespace Clarabel.C16
 open Clarabel Csc
@@ -2251,5 +2254,629 @@ example : Canonical0 (spalloc 2 3 1 : Csc Int) ∧ ¬ Canonical (spalloc 2 3 2 :
       have := (spalloc_canonical_iff (α := Int) 2 3 2).1.mp h; omega,
    (spalloc_canonical_iff 2 0 5).1.mpr (by decide), fun h => by
       have := (spalloc_canonical_iff (α := Int) 2 0 5).2.1.mp h; omega⟩
+
+end Clarabel.C16
+
+/-! ## The dense matrix module `src/algebra/dense/**` (sdp feature)
+
+Model: `ClarabelModel/Dense.lean` (channels `dense.*`); lemmas: `Lemmas/Dense*.lean`.
+`Dense.at? A i j` is the stored entry `data[i + m·j]?`, `Dense.atV? v A i j` the entry under a
+view (`N` the matrix, `T` its `t()`, `S` its `sym()`), `Dense.WF A` is `data.size = m·n` (what
+`Matrix::new` asserts; a `BorrowedMatrix` need not satisfy it). -/
+
+namespace Clarabel.C16
+open Clarabel Clarabel.Dense
+
+variable {α : Type}
+
+/-- [S] `Matrix::new((m, n), data)` succeeds exactly when `m·n = data.len()` and then is the matrix with that buffer (otherwise it panics, `Dense.new_panic`) -/
+theorem dense_new_spec (m n : Nat) (d : Array α) (R : Dense α) :
+    new m n d = .ok R ↔ m * n = d.size ∧ R = ⟨m, n, d⟩ := by
+  apply Dense.new_ok_iff <;> assumption
+
+/-- [S] `Matrix::zeros` is well formed -/
+theorem dense_zeros_wf [OfNat α 0] (m n : Nat) : WF (zeros m n : Dense α) := by
+  apply Dense.zeros_wf <;> assumption
+
+/-- [S] every entry of `Matrix::zeros((m, n))` is `0` -/
+theorem dense_zeros_spec [OfNat α 0] (m n : Nat) {i j : Nat} (hi : i < m) (hj : j < n) :
+    at? (zeros m n : Dense α) i j = some 0 := by
+  apply Dense.zeros_at <;> assumption
+
+/-- [S] `Matrix::identity(n)` never panics and is the identity -/
+theorem dense_identity_spec [OfNat α 0] [OfNat α 1] (n : Nat) :
+    ∃ R : Dense α, identity n = .ok R ∧ R.m = n ∧ R.n = n ∧ WF R ∧
+      ∀ i j, i < n → j < n → at? R i j = some (if i = j then 1 else 0) := by
+  apply Dense.identity_spec <;> assumption
+
+/-- [S] `set_identity` on a well-formed square matrix -/
+theorem dense_setIdentity_spec [OfNat α 0] [OfNat α 1] (A : Dense α) (hA : WF A) (hsq : A.m = A.n) :
+    ∃ R, setIdentity A = .ok R ∧ R.m = A.m ∧ R.n = A.n ∧ WF R ∧
+      ∀ i j, i < A.m → j < A.n → at? R i j = some (if i = j then 1 else 0) := by
+  apply Dense.setIdentity_spec <;> assumption
+
+/-- [S] `Matrix::from(rows)`: rectangular rows give the matrix with those rows -/
+theorem dense_fromRows_spec [OfNat α 0] (rows : Array (Array α))
+    (hall : ∀ r ∈ rows.toList, r.size = rowsN rows) :
+    ∃ R, fromRows rows = .ok R ∧ R.m = rows.size ∧ R.n = rowsN rows ∧ WF R ∧
+      ∀ i j (hi : i < rows.size) (_ : j < rowsN rows),
+        at? R i j = (rows[i]).toList[j]? := by
+  apply Dense.fromRows_spec <;> assumption
+
+/-- [S] ragged rows panic -/
+theorem dense_fromRows_ragged [OfNat α 0] (rows : Array (Array α))
+    (h : ∃ r ∈ rows.toList, r.size ≠ rowsN rows) :
+    fromRows rows = .error (.panic "Matrix::from: assert row lengths") := by
+  apply Dense.fromRows_ragged <;> assumption
+
+/-- [S] `resize`: new dimensions, well-formed, the common prefix of the data is kept and
+anything beyond the old data is zero -/
+theorem dense_resize_spec [OfNat α 0] (A : Dense α) (m n : Nat) :
+    (resize A m n).m = m ∧ (resize A m n).n = n ∧
+    (WF A → WF (resize A m n)) ∧
+    (∀ k, k < m * n → k < A.data.size → (resize A m n).data[k]? = A.data[k]?) ∧
+    (∀ k, k < m * n → A.data.size ≤ k → (resize A m n).data[k]? = some 0) := by
+  apply Dense.resize_spec <;> assumption
+
+/-- [S] `(Aᵀ)ᵢⱼ = Aⱼᵢ`, for every matrix and every index pair (also out of range: both sides
+then panic alike) -/
+theorem dense_transpose_entry (A : Dense α) (i j : Nat) : get .T A i j = get .N A j i := rfl
+
+/-- [S] the symmetric view reads the upper triangle on both sides of the diagonal -/
+theorem get_S (A : Dense α) (i j : Nat) :
+    get .S A i j = if i ≤ j then get .N A i j else get .N A j i := by
+  apply Dense.get_T <;> assumption
+
+/-- [S] the symmetric view reads the upper triangle on both sides of the diagonal -/
+theorem dense_sym_entry (A : Dense α) (i j : Nat) :
+    get .S A i j = if i ≤ j then get .N A i j else get .N A j i := by
+  apply Dense.get_S <;> assumption
+
+/-- [S] the symmetric view is symmetric: `A.sym()[(i, j)] = A.sym()[(j, i)]` for every matrix and every index pair -/
+theorem dense_sym_symmetric (A : Dense α) (i j : Nat) : get .S A i j = get .S A j i := by
+  apply Dense.get_S_symm <;> assumption
+
+/-- [S] sizes of the views: `t()` and `sym()` both report `(ncols, nrows)` of the source -/
+theorem dense_view_shape (A : Dense α) :
+    nrowsV .N A = A.m ∧ ncolsV .N A = A.n ∧ nrowsV .T A = A.n ∧ ncolsV .T A = A.m ∧
+    nrowsV .S A = A.n ∧ ncolsV .S A = A.m ∧ shapeIsT .N = false ∧ shapeIsT .T = true ∧
+    shapeIsT .S = false := ⟨rfl, rfl, rfl, rfl, rfl, rfl, rfl, rfl, rfl⟩
+
+/-- the materialised transpose -/
+def transpose (A : Dense α) [OfNat α 0] : Dense α := by
+  apply Dense.view_shape <;> assumption
+
+/-- [S] transposition is an involution on well-formed matrices -/
+theorem dense_transpose_involution [OfNat α 0] (A : Dense α) (hA : WF A) :
+    transpose (transpose A) = A := by
+  apply Dense.transpose_transpose <;> assumption
+
+/-- [S] entry `(i, j)` of the materialised transpose is entry `(j, i)` of the matrix -/
+theorem dense_transpose_at [OfNat α 0] (A : Dense α) (hA : WF A) {i j : Nat} (hi : i < A.n) (hj : j < A.m) :
+    at? (transpose A) i j = at? A j i := by
+  apply Dense.transpose_at <;> assumption
+
+/-- [S] a checked read of a well-formed matrix at an in-range index of the view succeeds and returns the stored entry (`sym()` views: square source) -/
+theorem dense_get_ok (v : DView) (A : Dense α) (hA : WF A) (hS : v = .S → A.m = A.n) {i j : Nat}
+    (hi : i < nrowsV v A) (hj : j < ncolsV v A) :
+    ∃ x, get v A i j = .ok x ∧ atV? v A i j = some x := by
+  apply Dense.get_ok <;> assumption
+
+/-- [S] `IndexMut` then `Index` -/
+theorem dense_set_get (A : Dense α) (i j : Nat) (x : α) (h : i + A.m * j < A.data.size) :
+    ∃ R, set A i j x = .ok R ∧ R.m = A.m ∧ R.n = A.n ∧ R.data.size = A.data.size ∧
+      R.data[i + A.m * j]? = some x ∧ ∀ k, k ≠ i + A.m * j → R.data[k]? = A.data[k]? := by
+  apply Dense.set_spec <;> assumption
+
+/-- [S] `col_slice(col)` of a well-formed matrix: the `m` entries of column `col` -/
+theorem dense_colSlice_spec (A : Dense α) (hA : WF A) {col : Nat} (hc : col < A.n) :
+    ∃ s, colSlice A col = .ok s ∧ s.size = A.m ∧ ∀ i, i < A.m → s[i]? = at? A i col := by
+  apply Dense.colSlice_spec <;> assumption
+
+/-- [S] `copy_from_slice` -/
+theorem dense_copyFromSlice_spec (A : Dense α) (src : Array α) :
+    copyFromSlice A src = if A.data.size = src.size then .ok { A with data := src }
+      else .error (.panic "copy_from_slice: length mismatch") := by
+  apply Dense.copyFromSlice_spec <;> assumption
+
+/-- [S] `is_triu` of a well-formed matrix: `true` exactly when every strictly lower entry
+compares equal to zero (`!= 0` is false; a NaN makes it `false`) -/
+theorem dense_isTriu_iff [OfNat α 0] [BEq α] (A : Dense α) (hA : WF A) :
+    ∃ b, isTriu A = .ok b ∧
+      (b = true ↔ ∀ r c, c < A.n → c < r → r < A.m → ∃ x, at? A r c = some x ∧ (x == 0) = true) := by
+  apply Dense.isTriu_iff <;> assumption
+
+/-- [S] `self.subsref(B, rows, cols)`: `self[(i, j)] = B[(rows[i], cols[j])]` for `i < rows.len()`,
+`j < cols.len()`; every other entry of `self` is untouched (`B` any view) -/
+theorem dense_subsref_spec (A S : Dense α) (vs : DView) (rows cols : Array Nat) (hA : WF A) (hSw : WF S)
+    (hS : vs = .S → S.m = S.n) (hr : rows.size ≤ A.m) (hc : cols.size ≤ A.n)
+    (hrows : ∀ r ∈ rows.toList, r < nrowsV vs S) (hcols : ∀ c ∈ cols.toList, c < ncolsV vs S) :
+    ∃ R, subsref A vs S rows cols = .ok R ∧ R.m = A.m ∧ R.n = A.n ∧ WF R ∧
+      (∀ i j (hi : i < rows.size) (hj : j < cols.size), at? R i j = atV? vs S rows[i] cols[j]) ∧
+      (∀ i j, i < A.m → j < A.n → (rows.size ≤ i ∨ cols.size ≤ j) → at? R i j = at? A i j) := by
+  apply Dense.subsref_spec <;> assumption
+
+/-- [S] `self.subsasgn(rows, cols, B)`: `self[(rows[i], cols[j])] = B[(i, j)]` when the index
+lists are in range and without repetitions; every other entry is untouched -/
+theorem dense_subsasgn_spec (A S : Dense α) (vs : DView) (rows cols : Array Nat) (hA : WF A) (hSw : WF S)
+    (hS : vs = .S → S.m = S.n) (hr : rows.size ≤ nrowsV vs S) (hc : cols.size ≤ ncolsV vs S)
+    (hrows : ∀ r ∈ rows.toList, r < A.m) (hcols : ∀ c ∈ cols.toList, c < A.n)
+    (hrn : rows.toList.Nodup) (hcn : cols.toList.Nodup) :
+    ∃ R, subsasgn A rows cols vs S = .ok R ∧ R.m = A.m ∧ R.n = A.n ∧ WF R ∧
+      (∀ i j (hi : i < rows.size) (hj : j < cols.size), at? R rows[i] cols[j] = atV? vs S i j) ∧
+      (∀ i j, i < A.m → j < A.n → (i ∉ rows.toList ∨ j ∉ cols.toList) → at? R i j = at? A i j) := by
+  apply Dense.subsasgn_spec <;> assumption
+
+/-- [S] writing a modified view back: the parent keeps its length, the part outside
+`[off, off+len)` is untouched, the part inside is the view's data -/
+theorem dense_view_store (o : Opnd α) (A : Dense α) (off len : Nat) (hv : o.view = some (off, len))
+    (hin : off + len ≤ o.parent.size) (hA : A.data.size = len) :
+    (o.store A).size = o.parent.size ∧
+    (∀ k, k < off → (o.store A)[k]? = o.parent[k]?) ∧
+    (∀ k, k < len → (o.store A)[off + k]? = A.data[k]?) ∧
+    (∀ k, off + len ≤ k → (o.store A)[k]? = o.parent[k]?) := by
+  apply Dense.store_view <;> assumption
+
+/-- [S] an owned operand is `Matrix::new`: it loads exactly when `m * n = len` -/
+theorem dense_load_owned (o : Opnd α) (hv : o.view = none) :
+    o.load = if o.m * o.n = o.parent.size then .ok ⟨o.m, o.n, o.parent⟩
+      else .error (.panic "Matrix::new: assert size") := by
+  apply Dense.load_owned <;> assumption
+
+/-- [S] a borrowed operand is built without any check (only the slice must exist) -/
+theorem dense_load_view (o : Opnd α) (off len : Nat) (hv : o.view = some (off, len))
+    (hin : off + len ≤ o.parent.size) :
+    o.load = .ok ⟨o.m, o.n, o.parent.extract off (off + len)⟩ := by
+  apply Dense.load_view <;> assumption
+
+/-- [S] `pack_triu`: the target must have `triangular_number(n)` entries and receives the upper
+triangle of the (square, well-formed) source column by column -/
+theorem dense_packTriu_spec (A : Dense α) (v : Array α) (hA : WF A) (hsq : A.m = A.n)
+    (hv : v.size = triangularNumber A.m) :
+    ∃ w, packTriu A v = .ok w ∧ w.size = triangularNumber A.m ∧
+      ∀ k (hk : k < (upperPositions A.m).length),
+        w[k]? = at? A (upperPositions A.m)[k].1 (upperPositions A.m)[k].2 := by
+  apply Dense.packTriu_spec <;> assumption
+
+/-- [S] `hcat(A, B)` of well-formed matrices with the same number of rows: `[A B]` -/
+theorem dense_hcat_spec (A B : Dense α) (hA : WF A) (hB : WF B) (hm : A.m = B.m) :
+    ∃ R, hcat A B = .ok R ∧ R.m = A.m ∧ R.n = A.n + B.n ∧ WF R ∧
+      (∀ i j, i < A.m → j < A.n → at? R i j = at? A i j) ∧
+      (∀ i j, i < A.m → j < B.n → at? R i (A.n + j) = at? B i j) := by
+  apply Dense.hcat_spec <;> assumption
+
+/-- [S] `hcat` of matrices with different row counts is `IncompatibleDimension` -/
+theorem dense_hcat_error (A B : Dense α) (hm : A.m ≠ B.m) :
+    hcat A B = .error (.err "IncompatibleDimension") := by
+  apply Dense.hcat_error <;> assumption
+
+/-- [S] `vcat(A, B)` of well-formed matrices with the same number of columns: `[A; B]` -/
+theorem dense_vcat_spec (A B : Dense α) (hA : WF A) (hB : WF B) (hn : A.n = B.n) :
+    ∃ R, vcat A B = .ok R ∧ R.m = A.m + B.m ∧ R.n = A.n ∧ WF R ∧
+      (∀ i j, i < A.m → j < A.n → at? R i j = at? A i j) ∧
+      (∀ i j, i < B.m → j < A.n → at? R (A.m + i) j = at? B i j) := by
+  apply Dense.vcat_spec <;> assumption
+
+/-- [S] `vcat` of matrices with different column counts is `IncompatibleDimension` -/
+theorem dense_vcat_error (A B : Dense α) (hn : A.n ≠ B.n) :
+    vcat A B = .error (.err "IncompatibleDimension") := by
+  apply Dense.vcat_error <;> assumption
+
+/-- [S] `hvcat` on any grid that fails `hvcat_dim_check` is `IncompatibleDimension` -/
+theorem dense_hvcat_error (mats : List (List (Dense α))) (h : hvcatDimCheck mats = false) :
+    hvcat mats = .error (.err "IncompatibleDimension") := by
+  apply Dense.hvcat_error <;> assumption
+
+/-- [S] Kronecker product: `K.kron(A, B)` with `K` of the right shape writes
+`A[p,q]·B[r,s]` at `(p·rr + r, q·ss + s)`; `A`, `B` are any view (a `sym()` view of a square
+matrix) -/
+theorem dense_kron_spec [Mul α] (K A B : Dense α) (va vb : DView) (hK : WF K) (hA : WF A) (hB : WF B)
+    (hSa : va = .S → A.m = A.n) (hSb : vb = .S → B.m = B.n)
+    (hm : K.m = nrowsV va A * nrowsV vb B) (hn : K.n = ncolsV va A * ncolsV vb B) :
+    ∃ R, kron K va A vb B = .ok R ∧ R.m = K.m ∧ R.n = K.n ∧ WF R ∧
+      ∀ p q r s, p < nrowsV va A → q < ncolsV va A → r < nrowsV vb B → s < ncolsV vb B →
+        ∃ a b, atV? va A p q = some a ∧ atV? vb B r s = some b ∧
+          at? R (p * nrowsV vb B + r) (q * ncolsV vb B + s) = some (a * b) := by
+  apply Dense.kron_spec <;> assumption
+
+/-- [F] `I_a ⊗ I_b = I_{ab}` -/
+theorem dense_kron_identity [MulZeroOneClass α] (a b : Nat) (Ia Ib K : Dense α)
+    (hIa : identity a = .ok Ia) (hIb : identity b = .ok Ib) (hK : WF K)
+    (hm : K.m = a * b) (hn : K.n = a * b) :
+    ∃ R, kron K .N Ia .N Ib = .ok R ∧ R.m = a * b ∧ R.n = a * b ∧ WF R ∧
+      ∀ i j, i < a * b → j < a * b → at? R i j = some (if i = j then 1 else 0) := by
+  apply Dense.kron_identity <;> assumption
+
+/-- [S] `scale(c)`: every stored value is multiplied by `c` -/
+theorem dense_scale_spec [Add α] [Mul α] [OfNat α 0] (A : Dense α) (c : α) :
+    (scale A c).m = A.m ∧ (scale A c).n = A.n ∧ (scale A c).data.size = A.data.size ∧
+      ∀ i j, at? (scale A c) i j = (at? A i j).map (· * c) := by
+  apply Dense.scale_spec <;> assumption
+
+/-- [S] `negate` -/
+theorem dense_negate_spec [Neg α] (A : Dense α) :
+    (negate A).m = A.m ∧ (negate A).n = A.n ∧ (negate A).data.size = A.data.size ∧
+      ∀ i j, at? (negate A) i j = (at? A i j).map (fun v => -v) := by
+  apply Dense.negate_spec <;> assumption
+
+/-- [S] `lscale(l)` with `l.len() == nrows`: entry `(i, j)` is multiplied by `l[i]` -/
+theorem dense_lscale_spec [Add α] [Mul α] [OfNat α 0] (A : Dense α) (l : Array α) (hA : WF A)
+    (hl : l.size = A.m) :
+    ∃ R, lscale A l = .ok R ∧ R.m = A.m ∧ R.n = A.n ∧ WF R ∧
+      ∀ i j (hi : i < A.m), j < A.n → at? R i j = (at? A i j).map (· * l[i]) := by
+  apply Dense.lscale_spec <;> assumption
+
+/-- [S] `rscale(r)` with `r.len() == ncols`: entry `(i, j)` is multiplied by `r[j]` -/
+theorem dense_rscale_spec [Add α] [Mul α] [OfNat α 0] (A : Dense α) (r : Array α) (hA : WF A)
+    (hr : r.size = A.n) :
+    ∃ R, rscale A r = .ok R ∧ R.m = A.m ∧ R.n = A.n ∧ WF R ∧
+      ∀ i j (_ : i < A.m) (hj : j < A.n), at? R i j = (at? A i j).map (· * r[j]) := by
+  apply Dense.rscale_spec <;> assumption
+
+/-- [S] `lrscale(l, r)`: entry `(i, j)` becomes `a·(l[i]·r[j])` -/
+theorem dense_lrscale_spec [Add α] [Mul α] [OfNat α 0] (A : Dense α) (l r : Array α) (hA : WF A)
+    (hl : l.size = A.m) (hr : r.size = A.n) :
+    ∃ R, lrscale A l r = .ok R ∧ R.m = A.m ∧ R.n = A.n ∧ WF R ∧
+      ∀ i j (hi : i < A.m) (hj : j < A.n),
+        at? R i j = (at? A i j).map (fun a => a * (l[i] * r[j])) := by
+  apply Dense.lrscale_spec <;> assumption
+
+/-- [S] `symmetric_part` of a well-formed square matrix: off the diagonal entry `(i, j)` and
+entry `(j, i)` both become `0.5·(A[r,c] + A[c,r])` with `r = max i j`, `c = min i j` (the order
+in which the Rust code adds them); the diagonal is untouched; in particular the result is
+symmetric -/
+theorem dense_symmetricPart_spec [Add α] [Sub α] [Mul α] [Div α] [OfNat α 0] [OfNat α 1] [LT α] [DecidableLT α] [FloatLike α] (A : Dense α) (hA : WF A) (hsq : A.m = A.n) :
+    ∃ R, symmetricPart A = .ok R ∧ R.m = A.m ∧ R.n = A.n ∧ WF R ∧
+      (∀ i, i < A.m → at? R i i = at? A i i) ∧
+      (∀ r c, c < r → r < A.m → ∃ x y, at? A r c = some x ∧ at? A c r = some y ∧
+        at? R r c = some (half * (x + y)) ∧ at? R c r = some (half * (x + y))) := by
+  apply Dense.symmetricPart_spec <;> assumption
+
+/-- [F] `col_sums`: `sums[j] = Σᵢ A[i,j]` -/
+theorem dense_colSums_spec [AddCommMonoid α] (A : Dense α) (sums : Array α) (hA : WF A)
+    (hs : sums.size = A.n) :
+    ∃ s, colSums A sums = .ok s ∧ s.size = A.n ∧
+      ∀ j, j < A.n → s[j]? = some (∑ i ∈ Finset.range A.m, A.data.getD (i + A.m * j) 0) := by
+  apply Dense.colSums_spec <;> assumption
+
+/-- [F] `row_sums`: `sums[i] = Σⱼ A[i,j]` (the incoming values of `sums` are overwritten) -/
+theorem dense_rowSums_spec [AddCommMonoid α] (A : Dense α) (sums : Array α) (hA : WF A)
+    (hs : sums.size = A.m) :
+    ∃ s, rowSums A sums = .ok s ∧ s.size = A.m ∧
+      ∀ i, i < A.m → s[i]? = some (∑ j ∈ Finset.range A.n, A.data.getD (i + A.m * j) 0) := by
+  apply Dense.rowSums_spec <;> assumption
+
+/-- [F] (commutative ring, lawful `==`) `C.mul(A, B, α, β)` on well-formed operands of
+matching, non-empty result shape: `C ← α·op(A)·op(B) + β·C`, entry by entry. -/
+theorem dense_mul_spec [CommRing α] [BEq α] [LawfulBEq α] (C : Dense α) (va : DView) (A : Dense α)
+    (vb : DView) (B : Dense α) (a b : α) (hC : WF C) (hA : WF A) (hB : WF B)
+    (h1 : ncolsV va A = nrowsV vb B) (h2 : C.m = nrowsV va A) (h3 : C.n = ncolsV vb B)
+    (hm : 0 < C.m) (hn : 0 < C.n) :
+    ∃ R, mul C va A vb B a b = .ok R ∧ R.m = C.m ∧ R.n = C.n ∧ WF R ∧
+      ∀ i j, i < C.m → j < C.n → at? R i j =
+        some (a * (∑ l ∈ Finset.range (ncolsV va A), blasElem va A i l * blasElem vb B l j)
+          + b * C.data.getD (i + C.m * j) 0) := by
+  apply Dense.mul_spec <;> assumption
+
+/-- [S] BLAS does not read `C` when `beta == 0`: two well-formed targets of the same shape
+(any contents) give the same outcome -/
+theorem dense_mul_beta_zero [Add α] [Mul α] [OfNat α 0] [BEq α] (C C' : Dense α) (va : DView) (A : Dense α) (vb : DView) (B : Dense α) (a b : α)
+    (hb : (b == 0) = true) (hm : C.m = C'.m) (hn : C.n = C'.n) (hC : WF C) (hC' : WF C') :
+    mul C va A vb B a b = mul C' va A vb B a b := by
+  apply Dense.mul_beta_zero <;> assumption
+
+/-- [S] empty result: quick return, nothing is read -/
+theorem dense_mul_empty [Add α] [Mul α] [OfNat α 0] [BEq α] (C : Dense α) (va : DView) (A : Dense α) (vb : DView) (B : Dense α) (a b : α)
+    (h1 : ncolsV va A = nrowsV vb B) (h2 : C.m = nrowsV va A) (h3 : C.n = ncolsV vb B)
+    (h0 : C.m = 0 ∨ C.n = 0) : mul C va A vb B a b = .ok C := by
+  apply Dense.mul_empty <;> assumption
+
+/-- [S] the asserts of `mul` fail -/
+theorem dense_mul_panic [Add α] [Mul α] [OfNat α 0] [BEq α] (C : Dense α) (va : DView) (A : Dense α) (vb : DView) (B : Dense α) (a b : α)
+    (h : ¬ (ncolsV va A = nrowsV vb B ∧ C.m = nrowsV va A ∧ C.n = ncolsV vb B)) :
+    mul C va A vb B a b = .error (.panic "gemm: assert dims") := by
+  apply Dense.mul_panic <;> assumption
+
+/-- [S] on a well-formed matrix the in-range entries of `op(A)` are exactly what BLAS reads -/
+theorem dense_blasElem_is_entry [OfNat α 0] (v : DView) (A : Dense α) (hA : WF A) (hv : v = .N ∨ v = .T)
+    {i l : Nat} (hi : i < nrowsV v A) (hl : l < ncolsV v A) :
+    atV? v A i l = some (blasElem v A i l) := by
+  apply Dense.atV_eq_blasElem <;> assumption
+
+/-- [S] a `sym()` view of a square matrix is handed to BLAS as the plain buffer -/
+theorem dense_blas_sym_view_is_plain [OfNat α 0] (A : Dense α) (h : A.m = A.n) : blasElem .S A = blasElem .N A := by
+  apply Dense.blasElem_S_eq_N <;> assumption
+
+/-- [F] (commutative ring, lawful `==`) `gemv` on a well-formed non-empty matrix (`A` itself or
+`t()`) and vectors of the right lengths: `y ← α·op(A)·x + β·y` with the true entries of `op(A)`. -/
+theorem dense_gemv_spec [CommRing α] [BEq α] [LawfulBEq α] (v : DView) (A : Dense α) (x y : Array α) (a b : α)
+    (hv : v = .N ∨ v = .T) (hA : WF A) (hx : ncolsV v A = x.size) (hy : nrowsV v A = y.size)
+    (hm : 0 < A.m) (hn : 0 < A.n) :
+    ∃ y', gemv v A x y a b = .ok y' ∧ y'.size = y.size ∧
+      ∀ i, i < y.size → y'[i]? =
+        some (a * (∑ l ∈ Finset.range x.size, (atV? v A i l).getD 0 * x.getD l 0) + b * y.getD i 0) := by
+  apply Dense.gemv_spec <;> assumption
+
+/-- [S] BLAS `?gemv` returns at once on an empty matrix: `y` is NOT scaled by `beta` -/
+theorem dense_gemv_empty_unscaled [Add α] [Mul α] [OfNat α 0] [BEq α] (v : DView) (A : Dense α) (x y : Array α) (a b : α)
+    (hv : v = .N ∨ v = .T) (hx : ncolsV v A = x.size) (hy : nrowsV v A = y.size)
+    (h0 : A.m = 0 ∨ A.n = 0) : gemv v A x y a b = .ok y := by
+  apply Dense.gemv_empty_unscaled <;> assumption
+
+/-- [F] (commutative ring, lawful `==`) `A.sym().symv(x, y, α, β)` on a well-formed non-empty
+square matrix: `y ← α·sym(A)·x + β·y`, `sym(A)` read from the upper triangle. -/
+theorem dense_symv_spec [CommRing α] [BEq α] [LawfulBEq α] (A : Dense α) (x y : Array α) (a b : α) (n : Nat)
+    (hA : WF A) (hm : A.m = n) (hn : A.n = n) (h0 : 0 < n) (hx : x.size = n) (hy : y.size = n) :
+    ∃ y', symv A x y a b = .ok y' ∧ y'.size = n ∧
+      ∀ i, i < n → y'[i]? =
+        some (a * (∑ l ∈ Finset.range n, symElem A n i l * x.getD l 0) + b * y.getD i 0) := by
+  apply Dense.symv_spec <;> assumption
+
+/-- [S] `?symv('U')` references the upper triangle only: two square well-formed matrices that
+agree there give the same outcome -/
+theorem dense_symv_upper_only [Add α] [Mul α] [OfNat α 0] [BEq α] (A A' : Dense α) (x y : Array α) (a b : α) (hm : A.m = A'.m) (hn : A.n = A'.n)
+    (hsq : A.m = A.n) (hA : WF A) (hA' : WF A')
+    (hup : ∀ i l, i ≤ l → l < A.m → A.data[i + A.m * l]? = A'.data[i + A.m * l]?) :
+    symv A x y a b = symv A' x y a b := by
+  apply Dense.symv_upper_only <;> assumption
+
+/-- [F] (commutative ring, lawful `==`) `C.syrk(A, α, β)`: the upper triangle of `C` becomes
+`α·op(A)·op(A)ᵀ + β·C`, the strictly lower triangle is left untouched. -/
+theorem dense_syrk_spec [CommRing α] [BEq α] [LawfulBEq α] (C : Dense α) (va : DView) (A : Dense α) (a b : α)
+    (hC : WF C) (hA : WF A) (h1 : C.m = nrowsV va A) (h2 : C.n = nrowsV va A) (hm : 0 < C.m)
+    (hk : ¬ (shapeIsT va = true ∧ ncolsV va A = 0)) :
+    ∃ R, syrk C va A a b = .ok R ∧ R.m = C.m ∧ R.n = C.n ∧ WF R ∧
+      (∀ i j, i ≤ j → j < C.m → at? R i j =
+        some (a * (∑ l ∈ Finset.range (ncolsV va A), blasElem va A i l * blasElem va A j l)
+          + b * C.data.getD (i + C.m * j) 0)) ∧
+      (∀ i j, j < i → i < C.m → at? R i j = at? C i j) := by
+  apply Dense.syrk_spec <;> assumption
+
+/-- [S] (finding) `C.syrk(A.t(), α, β)` with `A` having no rows (`k = 0`): the wrapper passes
+`lda = 0`, BLAS rejects the call, `C` is returned as it was — `beta` is NOT applied. -/
+theorem dense_syrk_adjoint_k0 [Add α] [Mul α] [OfNat α 0] [BEq α] (C A : Dense α) (a b : α) (h1 : C.m = nrowsV .T A) (h2 : C.n = nrowsV .T A)
+    (hm : 0 < C.m) (hk : ncolsV .T A = 0) : syrk C .T A a b = .ok C := by
+  apply Dense.syrk_adjoint_k0 <;> assumption
+
+/-- [F] (commutative ring, lawful `==`) `C.syr2k(A, B, α, β)`: the upper triangle of `C` becomes
+`α·(A·Bᵀ + B·Aᵀ) + β·C`, the strictly lower triangle is left untouched. -/
+theorem dense_syr2k_spec [CommRing α] [BEq α] [LawfulBEq α] (C A B : Dense α) (a b : α)
+    (hC : WF C) (hA : WF A) (hB : WF B)
+    (h1 : C.m = A.m) (h2 : C.m = B.m) (h3 : C.n = B.m) (h4 : A.n = B.n) (hm : 0 < C.m) :
+    ∃ R, syr2k C A B a b = .ok R ∧ R.m = C.m ∧ R.n = C.n ∧ WF R ∧
+      (∀ i j, i ≤ j → j < C.m → at? R i j =
+        some (a * (∑ l ∈ Finset.range A.n,
+            (blasElem .N A i l * blasElem .N B j l + blasElem .N B i l * blasElem .N A j l))
+          + b * C.data.getD (i + C.m * j) 0)) ∧
+      (∀ i j, j < i → i < C.m → at? R i j = at? C i j) := by
+  apply Dense.syr2k_spec <;> assumption
+
+/-- [S] `factor`, dimension mismatch: `IncompatibleDimension`, the engine is untouched and
+LAPACK is not called. -/
+theorem dense_cholFactor_dim (L A : Dense α) (potrf : Array α → PotrfOut α)
+    (hsq : L.m = L.n) (hd : (A.m, A.n) ≠ (L.m, L.n)) :
+    cholFactor L A potrf = .ok (L, some .incompatibleDimension) := by
+  apply Dense.cholFactor_dim <;> assumption
+
+/-- [S] `factor` of an empty matrix with an empty engine: nothing is copied, the wrapper
+passes `lda = 0` and LAPACK rejects argument 4 — the result is `Cholesky(-4)`, not `Ok`
+(finding: an empty matrix is rejected). -/
+theorem dense_cholFactor_empty (L A : Dense α) (potrf : Array α → PotrfOut α)
+    (hLm : L.m = 0) (hLn : L.n = 0) (hAm : A.m = 0) (hAn : A.n = 0) :
+    cholFactor L A potrf = .ok ({ L with data := L.data }, some (.cholesky (-4))) := by
+  apply Dense.cholFactor_empty <;> assumption
+
+/-- [S] `cholFactor_run` with the size hypothesis only for buffers of the size LAPACK is given -/
+theorem dense_cholFactor_run' (L A : Dense α) (potrf : Array α → PotrfOut α) (n : Nat)
+    (hL : WF L) (hA : WF A) (hLm : L.m = n) (hLn : L.n = n) (hAm : A.m = n) (hAn : A.n = n)
+    (hn : 0 < n) (hp : ∀ buf : Array α, buf.size = n * n → (potrf buf).buf.size = n * n) :
+    ∃ ws pre, cholCopyWrites n A = .ok ws ∧ applyWrites L.data ws = .ok pre ∧
+      pre.size = n * n ∧
+      cholFactor L A potrf = .ok ({ L with data := (potrf pre).buf },
+        if (potrf pre).info ≠ 0 then some (.cholesky (potrf pre).info) else none) ∧
+      (∀ i j, j ≤ i → i < n → pre[i + n * j]? = A.data[j + n * i]?) ∧
+      (∀ i j, i < j → j < n → pre[i + n * j]? = L.data[i + n * j]?) := by
+  apply Dense.cholFactor_run <;> assumption
+
+/-- [F] `factor` relative to the `?potrf` contract: when the wrapper returns `Ok(())` the
+lower triangle `Λ` of the engine's `L` satisfies `Λ Λᵀ = ` the symmetric completion of the
+UPPER triangle of `A`, and the entries of `L` above the diagonal are the stale ones the
+engine held before (LAPACK does not touch them: zeros stay zeros, but nothing zeroes them). -/
+theorem dense_cholFactor_contract [CommRing α] (L A : Dense α) (potrf : Array α → PotrfOut α) (n : Nat)
+    (hL : WF L) (hA : WF A) (hLm : L.m = n) (hLn : L.n = n) (hAm : A.m = n) (hAn : A.n = n)
+    (hn : 0 < n) (hc : PotrfContract n potrf) (L' : Dense α)
+    (hres : cholFactor L A potrf = .ok (L', none)) :
+    L'.m = n ∧ L'.n = n ∧ WF L' ∧
+    (∀ i j, i < n → j < n →
+      ∑ k ∈ Finset.range n, cholLow n L'.data i k * cholLow n L'.data j k
+        = if i ≤ j then A.data.getD (i + n * j) 0 else A.data.getD (j + n * i) 0) ∧
+    (∀ i j, i < j → j < n → L'.data[i + n * j]? = L.data[i + n * j]?) := by
+  apply Dense.cholFactor_contract <;> assumption
+
+/-- [S] `factor` with the channel's `?potrf` (`info` and lower triangle as observed on the
+implementation): the engine's `L` afterwards has the observed lower triangle and the engine's
+previous (stale) entries strictly above the diagonal; the result is `Cholesky(info)` iff
+`info ≠ 0`. -/
+theorem dense_cholFactor_observed (L A : Dense α) (n : Nat) (info : Int) (res : Array α)
+    (hL : WF L) (hA : WF A) (hLm : L.m = n) (hLn : L.n = n) (hAm : A.m = n) (hAn : A.n = n)
+    (hn : 0 < n) (hr : res.size = n * n) :
+    ∃ L', cholFactor L A (potrfObserved n info res) =
+        .ok (L', if info ≠ 0 then some (.cholesky info) else none) ∧
+      L'.m = n ∧ L'.n = n ∧ WF L' ∧
+      (∀ i j, j ≤ i → i < n → L'.data[i + n * j]? = res[i + n * j]?) ∧
+      (∀ i j, i < j → j < n → L'.data[i + n * j]? = L.data[i + n * j]?) := by
+  apply Dense.cholFactor_observed <;> assumption
+
+/-- [S] `solve` with an empty engine: `lda = 0` is illegal, `assert_eq!(info, 0)` fires -/
+theorem dense_cholSolve_panic_empty (L B : Dense α) (potrs : Array α → Array α) (h : L.m = 0) :
+    cholSolve L B potrs = .error (.panic "potrs: info -5") := by
+  apply Dense.cholSolve_panic_empty <;> assumption
+
+/-- [S] `solve` with a right-hand side that has fewer rows than the factor: `ldb < n` is
+illegal, the assert fires -/
+theorem dense_cholSolve_panic_rows (L B : Dense α) (potrs : Array α → Array α) (h0 : 0 < L.m)
+    (h : B.m < L.m) : cholSolve L B potrs = .error (.panic "potrs: info -7") := by
+  apply Dense.cholSolve_panic_rows <;> assumption
+
+/-- [S] `solve` otherwise: `B`'s buffer becomes what `?potrs` leaves -/
+theorem dense_cholSolve_ok (L B : Dense α) (potrs : Array α → Array α) (h0 : 0 < L.m)
+    (h : L.m ≤ B.m) (hL : WF L) (hB : WF B) (hp : (potrs B.data).size = B.data.size) :
+    cholSolve L B potrs = .ok { B with data := potrs B.data } := by
+  apply Dense.cholSolve_ok <;> assumption
+
+/-- [R] `logdet` of a well-formed square engine over ℝ does not panic and is twice the sum of
+the logarithms of the diagonal of `L` (`= log det (L Lᵀ)` when the diagonal is positive; the
+Rust code takes `ln` of whatever is there). -/
+theorem dense_cholLogdet_spec (L : Dense ℝ) (hL : WF L) (hsq : L.m = L.n) :
+    cholLogdet L = .ok (2 * ∑ i ∈ Finset.range L.m, Real.log (L.data.getD (i + L.m * i) 0)) := by
+  apply Dense.cholLogdet_spec <;> assumption
+
+/-- [S] `syevr` on a non-square matrix or one whose order differs from the engine's:
+`IncompatibleDimension`, nothing is touched (in particular `V` is not allocated). -/
+theorem dense_eig_dim [OfNat α 0] (E : EigEngine α) (A : Dense α) (wantV : Bool) (syevr : Array α → SyevrOut α)
+    (h : A.m ≠ A.n ∨ A.m ≠ E.lam.size) :
+    eigSyevr E A wantV syevr = .ok (E, A, some .incompatibleDimension) := by
+  apply Dense.eigSyevr_dim <;> assumption
+
+/-- [S] `syevr` of an empty matrix with an empty engine: the wrapper passes `lda = 0`, the
+workspace query reports argument 6 — the result is `Eigen(-6)`, `A` is unchanged, and `V` has
+already been allocated (as `zeros 0 0`) iff eigenvectors were requested for the first time. -/
+theorem dense_eig_empty [OfNat α 0] (E : EigEngine α) (A : Dense α) (wantV : Bool) (syevr : Array α → SyevrOut α)
+    (hsq : A.m = A.n) (hl : A.m = E.lam.size) (h0 : A.m = 0) :
+    eigSyevr E A wantV syevr =
+      .ok (if wantV && E.V.isNone then { E with V := some (zeros 0 0) } else E, A,
+        some (.eigen (-6))) := by
+  apply Dense.eigSyevr_empty <;> assumption
+
+/-- [S] `syevr` on a well-formed square matrix of the engine's order `n > 0`, relative to a
+`?syevr` that keeps the lengths of `a` and `w`: the result is `Eigen(info)` iff `info ≠ 0`;
+`λ`, the work lengths and `A`'s buffer are LAPACK's; with `wantV` the engine's `V` (allocated
+as `zeros n n` on the first request, kept with its shape afterwards) receives `z`; without
+`wantV` the field `V` is unchanged. -/
+theorem dense_eig_run [OfNat α 0] (E : EigEngine α) (A : Dense α) (wantV : Bool) (syevr : Array α → SyevrOut α)
+    (hsq : A.m = A.n) (hl : A.m = E.lam.size) (h0 : 0 < A.m) (hA : WF A)
+    (ha : (syevr A.data).a.size = A.data.size) (hw : (syevr A.data).w.size = E.lam.size) :
+    eigSyevr E A wantV syevr =
+      .ok ({ lam := (syevr A.data).w,
+             V := if wantV then
+                 some { (E.V.getD (zeros A.m A.m)) with data := (syevr A.data).z }
+               else E.V,
+             isuppzLen := E.isuppzLen,
+             workLen := (syevr A.data).lwork,
+             iworkLen := (syevr A.data).liwork },
+           { A with data := (syevr A.data).a },
+           if (syevr A.data).info ≠ 0 then some (.eigen (syevr A.data).info) else none) := by
+  apply Dense.eigSyevr_run <;> assumption
+
+/-- [S] `SVDEngine::new((m, n))`: `k = min m n` singular values, `U` is `m × k`, `Vt` is
+`k × n`, both well formed; divide and conquer is the default algorithm. -/
+theorem dense_svdNew_shape [OfNat α 0] (m n : Nat) :
+    (svdNew m n : SvdEngine α).s.size = min m n ∧
+    (svdNew m n : SvdEngine α).U.m = m ∧ (svdNew m n : SvdEngine α).U.n = min m n ∧
+    (svdNew m n : SvdEngine α).Vt.m = min m n ∧ (svdNew m n : SvdEngine α).Vt.n = n ∧
+    WF (svdNew m n : SvdEngine α).U ∧ WF (svdNew m n : SvdEngine α).Vt ∧
+    (svdNew m n : SvdEngine α).qr = false := by
+  apply Dense.svdNew_shape <;> assumption
+
+/-- [S] `SVDEngine::resize((m, n))` from any state gives the shapes of `new((m, n))` -/
+theorem dense_svdResize_shape [OfNat α 0] (E : SvdEngine α) (m n : Nat) :
+    (svdResize E m n).s.size = min m n ∧
+    (svdResize E m n).U.m = m ∧ (svdResize E m n).U.n = min m n ∧
+    (svdResize E m n).Vt.m = min m n ∧ (svdResize E m n).Vt.n = n ∧
+    WF (svdResize E m n).U ∧ WF (svdResize E m n).Vt ∧
+    (svdResize E m n).qr = E.qr := by
+  apply Dense.svdResize_shape <;> assumption
+
+/-- [S] `factor` with an engine of another shape: `IncompatibleDimension`, nothing touched -/
+theorem dense_svd_dim (E : SvdEngine α) (A : Dense α) (gesvd : Array α → GesvdOut α)
+    (h : E.U.m ≠ A.m ∨ E.Vt.n ≠ A.n) :
+    svdFactor E A gesvd = .ok (E, A, some .incompatibleDimension) := by
+  apply Dense.svdFactor_dim <;> assumption
+
+/-- [S] `factor` of a matrix without rows: the wrapper passes `lda = 0`; LAPACK reports
+argument 5 (`?gesdd`) / 6 (`?gesvd`).  `iwork` has already been resized (to length 0) on the
+divide-and-conquer path. -/
+theorem dense_svd_norows (E : SvdEngine α) (A : Dense α) (gesvd : Array α → GesvdOut α)
+    (hU : E.U.m = A.m) (hVt : E.Vt.n = A.n) (h0 : A.m = 0) :
+    svdFactor E A gesvd =
+      .ok (if E.qr then E else { E with iworkLen := 0 }, A,
+        some (.svd (if E.qr then -6 else -5))) := by
+  apply Dense.svdFactor_norows <;> assumption
+
+/-- [S] `factor` of a matrix with rows but without columns: `ldvt = min(m, n) = 0`; LAPACK
+reports argument 10 (`?gesdd`) / 11 (`?gesvd`). -/
+theorem dense_svd_nocols (E : SvdEngine α) (A : Dense α) (gesvd : Array α → GesvdOut α)
+    (hU : E.U.m = A.m) (hVt : E.Vt.n = A.n) (hm : 0 < A.m) (h0 : A.n = 0) :
+    svdFactor E A gesvd =
+      .ok (if E.qr then E else { E with iworkLen := 0 }, A,
+        some (.svd (if E.qr then -11 else -10))) := by
+  apply Dense.svdFactor_nocols <;> assumption
+
+/-- [S] `factor` of a well-formed non-empty matrix with a well-formed engine of its shape,
+relative to a `?gesdd`/`?gesvd` that keeps the buffer lengths: the result is `SVD(info)` iff
+`info ≠ 0`; `s`, `U`, `Vt`, the work length and `A`'s buffer are LAPACK's (shapes kept);
+`iwork` has length `8·min(m, n)` on the divide-and-conquer path and is untouched with `qr`. -/
+theorem dense_svd_run (E : SvdEngine α) (A : Dense α) (gesvd : Array α → GesvdOut α)
+    (hU : E.U.m = A.m) (hVt : E.Vt.n = A.n) (hm : 0 < A.m) (hn : 0 < A.n)
+    (hA : WF A) (hEU : WF E.U) (hEVt : WF E.Vt) (hs : E.s.size = min A.m A.n)
+    (ha : (gesvd A.data).a.size = A.data.size) (hos : (gesvd A.data).s.size = E.s.size)
+    (hu : (gesvd A.data).u.size = E.U.data.size) (hvt : (gesvd A.data).vt.size = E.Vt.data.size) :
+    svdFactor E A gesvd =
+      .ok ({ s := (gesvd A.data).s,
+             U := { E.U with data := (gesvd A.data).u },
+             Vt := { E.Vt with data := (gesvd A.data).vt },
+             qr := E.qr,
+             workLen := (gesvd A.data).lwork,
+             iworkLen := if E.qr then E.iworkLen else 8 * min A.m A.n },
+           { A with data := (gesvd A.data).a },
+           if (gesvd A.data).info ≠ 0 then some (.svd (gesvd A.data).info) else none) := by
+  apply Dense.svdFactor_run <;> assumption
+
+/-- [S] `solve` with a non-square engine: `assert_eq!(m, n)` fires -/
+theorem dense_svdSolve_panic_square [Add α] [Mul α] [Div α] [OfNat α 0] [OfNat α 1] [BEq α] [LT α] [DecidableLT α] (E : SvdEngine α) (B : Dense α) (h : E.U.m ≠ E.Vt.n) :
+    svdSolve E B = .error (.panic "svd solve: assert_eq m n") := by
+  apply Dense.svdSolve_panic_square <;> assumption
+
+/-- [S] `solve` with a right-hand side of another height: `assert_eq!(B.nrows(), m)` fires -/
+theorem dense_svdSolve_panic_rows [Add α] [Mul α] [Div α] [OfNat α 0] [OfNat α 1] [BEq α] [LT α] [DecidableLT α] (E : SvdEngine α) (B : Dense α) (h : E.U.m = E.Vt.n)
+    (hB : B.m ≠ E.U.m) :
+    svdSolve E B = .error (.panic "svd solve: assert_eq B.nrows") := by
+  apply Dense.svdSolve_panic_rows <;> assumption
+
+/-- [S] `solve` with an engine that holds no singular value (`new((0, 0))`, or resized to
+it) and a right-hand side without rows: the asserts pass and the tolerance reads `s[0]` —
+index out of bounds. -/
+theorem dense_svdSolve_panic_empty [Add α] [Mul α] [Div α] [OfNat α 0] [OfNat α 1] [BEq α] [LT α] [DecidableLT α] (E : SvdEngine α) (B : Dense α) (h : E.U.m = E.Vt.n)
+    (hB : B.m = E.U.m) (hs : E.s.size = min E.U.m E.Vt.n) (h0 : E.s.size = 0) :
+    svdSolve E B = .error (.panic "s[0]") := by
+  apply Dense.svdSolve_panic_empty <;> assumption
+
+/-- [S] `lusolve` with a non-square `A` or a `B` with another number of rows:
+`IncompatibleDimension`, `ipiv` is not resized. -/
+theorem dense_lu_dim (A B : Dense α) (ipiv : Array Int) (gesv : Array α → Array α → GesvOut α)
+    (h : A.m ≠ A.n ∨ A.n ≠ B.m) :
+    luSolve A B ipiv gesv = .ok (A, B, ipiv, some .incompatibleDimension) := by
+  apply Dense.luSolve_dim <;> assumption
+
+/-- [S] `lusolve` of an empty system: `ipiv` is resized to length 0, the wrapper passes
+`lda = 0`, LAPACK reports argument 4 — `LU(-4)`. -/
+theorem dense_lu_empty (A B : Dense α) (ipiv : Array Int) (gesv : Array α → Array α → GesvOut α)
+    (hsq : A.m = A.n) (hB : A.n = B.m) (h0 : A.m = 0) :
+    luSolve A B ipiv gesv = .ok (A, B, #[], some (.lu (-4))) := by
+  apply Dense.luSolve_empty <;> assumption
+
+/-- [S] `lusolve` of a well-formed square system of order `n > 0`, relative to a `?gesv` that
+keeps the buffer lengths and returns `n` pivots: the result is `LU(info)` iff `info ≠ 0`; the
+buffers of `A` (the factors), of `B` (the solution) and `ipiv` are LAPACK's. -/
+theorem dense_lu_run (A B : Dense α) (ipiv : Array Int) (gesv : Array α → Array α → GesvOut α)
+    (hsq : A.m = A.n) (hB : A.n = B.m) (h0 : 0 < A.m) (hA : WF A) (hBw : WF B)
+    (ha : (gesv A.data B.data).a.size = A.data.size)
+    (hb : (gesv A.data B.data).b.size = B.data.size)
+    (hp : (gesv A.data B.data).ipiv.size = A.m) :
+    luSolve A B ipiv gesv =
+      .ok ({ A with data := (gesv A.data B.data).a }, { B with data := (gesv A.data B.data).b },
+        (gesv A.data B.data).ipiv,
+        if (gesv A.data B.data).info ≠ 0 then some (.lu (gesv A.data B.data).info) else none) := by
+  apply Dense.luSolve_run <;> assumption
 
 end Clarabel.C16
